@@ -849,6 +849,8 @@ func ruleViz(rule string) RuleFn {
 			})
 			uw := len(an.CallsNamed(fn, "errors.Unwrap")) == 1
 			c.Check(ta && uw, rule, "X-vis: "+nm+" walks the chain asserting errVisualizer", "err.(errVisualizer) + errors.Unwrap", nm+" no longer walks the error chain with the errVisualizer assertion and errors.Unwrap", nil, nil)
+			okStop, whyStop := stopsAtConstructorFailed(fn)
+			c.Check(okStop, rule, "X-vis: "+nm+" does not look inside the error a constructor returned", "the walk ends at errConstructorFailed", nm+": "+whyStop+" - a constructor that fails with a (wrapped) dig error of another container has that foreign error drawn as the root cause and is itself drawn as a transitive failure", nil, nil)
 		}
 		if fn := c.P.Func("dig.CanVisualizeError"); fn != nil {
 			// true only on the ok edge
